@@ -73,10 +73,9 @@ let cl_handler form args =
   let (x, y, _) = operands (z_of_int 4) form (drop_last args) in
   let nd = isclose true eps x y and dbg = isclose false eps x y in
   let rej = (nd = Reject) || static_reject form (drop_last args) in
-  let oke = (noeither x && noeither y) || (Z.eqb eps default_eps && notup x && notup y) in
   { model = both_builds nd dbg;
     spec = if rej then "unsupported" else show_b (spec_close eps x y);
-    dom = wfb x && wfb y && oke && not rej && (match dbg with Ret _ -> true | _ -> false) }
+    dom = wfb x && wfb y && pair_dom x y && not rej }
 
 let () =
   List.iter (fun f -> register ("eq_" ^ f) (eq_handler f); register ("cl_" ^ f) (cl_handler f))
